@@ -50,3 +50,28 @@ package ebpf
 
 //@ func MACToUint64
 //@   modifies nothing
+
+// ---- loader.go: fast-path cache writers as seen by the DHCP handlers (C02) ----
+// Frames only: these functions write kernel maps and nothing of the Go state.
+
+//@ func (l *Loader) AddSubscriber
+//@   modifies nothing
+
+//@ func (l *Loader) AddVLANSubscriber
+//@   modifies nothing
+
+//@ func (l *Loader) AddCircuitIDMapping
+//@   modifies nothing
+
+//@ func (l *Loader) CheckCircuitIDCollision
+//@   trusted reads the circuit-id kernel map into a local
+//@   modifies nothing
+
+//@ func (l *Loader) AddCircuitIDSubscriber
+//@   modifies nothing
+
+//@ func HashCircuitID
+//@   modifies nothing
+
+//@ func IPToUint32
+//@   modifies nothing
